@@ -41,7 +41,7 @@ class ConsistentHashRing:
 def main():
     seed, nrings, out = int(sys.argv[1]), int(sys.argv[2]), sys.argv[3]
     rnd = random.Random(seed)
-    hosts = ["10.4.0.%d" % i for i in range(1, 12)] + ["graphite-%d.example.org" % i for i in range(1, 6)]
+    hosts = ["10.4.0.%d" % i for i in range(1, 12)] + ["graphite-%d.example.org" % i for i in range(1, 6)] + ["Graphite-A.Example.org", "CARBON01", "cache-B.dc2"]  # carbon hashes the host string as configured, capitals included
     rings = []
     for r in range(nrings):
         n = rnd.randrange(1, 9)
